@@ -201,6 +201,15 @@ func (g *flowGen) parts(prefix string) []hast.Part {
 	if r.Chance(1, 5) {
 		parts = append(parts, hast.Lit(r.Pick(" end", " fin", " 終")))
 	}
+	if r.Chance(1, 12) {
+		// the text ends with a colon (a speaker prefix with nothing after it), possibly followed by an
+		// expression that renders as nothing
+		parts = append(parts, hast.Lit(":"))
+		if r.Bool() {
+			parts = append(parts, hast.Lit(" "), hast.Inl(hast.Str("")))
+		}
+		return parts
+	}
 	if g.cfg.Markup && r.Chance(1, 2) {
 		parts = append(parts, hast.Lit(r.Pick(" [b]bold[/b]", " [wave a=1 /]x", " [a][c]y[/a]z[/c]", " [plural value=2 one=\"% cat\" other=\"% cats\" /]", " [nomarkup][raw][/nomarkup]")))
 	}
